@@ -77,3 +77,5 @@ Definition p_c12 : pred_t := pred_c12.
 Definition p_c13 : pred_t := pred_c13.
 Definition p_c14 : pred_t := pred_c14.
 Definition p_c19 : pred_t := pred_c19.
+Definition p_c18 : pred_t := pred_c18.
+Definition p_c08 : pred_t := pred_c08.
